@@ -1,3 +1,8 @@
+// Under `--cfg divan_verif` every `std::…` path in this file resolves to the
+// simulator's drop-in `std` (see /verif/DESIGN.md §3, hook H3).
+#[cfg(all(divan_verif, not(miri)))]
+use ::dsim::shim as std;
+
 use std::{
     num::NonZeroUsize,
     panic::AssertUnwindSafe,
@@ -133,6 +138,11 @@ impl ThreadPool {
 
     #[cfg(test)]
     fn aux_thread_count(&self) -> usize {
+        self.threads.lock().unwrap_or_else(PoisonError::into_inner).len()
+    }
+
+    #[cfg(divan_verif)]
+    pub(crate) fn verif_aux_thread_count(&self) -> usize {
         self.threads.lock().unwrap_or_else(PoisonError::into_inner).len()
     }
 }
